@@ -231,6 +231,10 @@ func main() {
 	case "C31":
 		c31()
 	case "C45":
+		if len(os.Args) > 2 && os.Args[2] == "debug" {
+			debug45()
+			return
+		}
 		c45()
 	default:
 		ev.Fatal("unknown property %s", os.Args[1])
